@@ -541,6 +541,16 @@ func (env *Env) evalCall(x *ECall) Term {
 		fv.decls.Add(1, "pv_evalphase", "(declare-const pv_evalphase Bool)")
 		fv.usesEvalPhase = true
 		return Term{S: "pv_evalphase", Sort: SBool}
+	case "boundto":
+		f, p := env.Eval(x.Args[0]), env.Eval(x.Args[1])
+		if f.T == nil {
+			return env.fail("boundto: untyped function value")
+		}
+		targets := fv.eng.funcTargets(f.T)
+		if len(targets) == 0 {
+			return env.fail("boundto: no registered targets for %s", f.T)
+		}
+		return fv.boundTo(f, p, targets)
 	case "trusted":
 		a := env.Eval(x.Args[0])
 		fv.decls.Add(1, "pv_trusted", "(declare-fun pv_trusted (pv_Str) Bool)\n(assert (pv_trusted pv_empty))")
